@@ -116,26 +116,144 @@ const COEFFS: [u64; 9] = [0, 1, 43, 44, 100, 255, 256, 999, 1000];
 const CONSTS: [u64; 3] = [0, 155_381, 1_000_000];
 const BOUNDARIES: [i128; 10] = [0, 23, 24, 255, 256, 65_535, 65_536, 4_294_967_295, 4_294_967_296, 1_000_000_000];
 
+impl C05 {
+    /// Multi-UTxO input whose threshold depends on the fee, against a wallet of small UTxOs: the real fee can
+    /// force the selection to reach for one more UTxO, which makes the transaction (and the fee) larger
+    /// again. Whatever the loop returns must still be a fixed point, and the change must account for
+    /// exactly the selected inputs.
+    fn multi(&self, ctx: &mut Ctx, idx: u64, rng: &mut Rng) {
+        let with_change = rng.chance(4, 5);
+        let mut outputs = vec![Output { name: Some("target".into()), to: Some(E::Party("Receiver".into())), amount: Some(E::Ada(Box::new(E::Param("quantity".into())))), ..Default::default() }];
+        if with_change {
+            let e = E::Sub(Box::new(E::Sub(Box::new(E::InputValue("source".into())), Box::new(E::Ada(Box::new(E::Param("quantity".into())))))), Box::new(E::Fees));
+            outputs.push(Output { name: Some("change".into()), to: Some(E::Party("Sender".into())), amount: Some(e), ..Default::default() });
+        }
+        let prog = Program {
+            parties: vec!["Sender".into(), "Receiver".into()],
+            txs: vec![TxDef {
+                name: "pay".into(),
+                params: vec![("quantity".into(), Ty::Int)],
+                inputs: vec![Input { name: "source".into(), many: true, from: Some(E::Party("Sender".into())), min_amount: Some(E::Add(Box::new(E::Ada(Box::new(E::Param("quantity".into())))), Box::new(E::Fees))), ..Default::default() }],
+                outputs,
+                ..Default::default()
+            }],
+            ..Default::default()
+        };
+        let src = print_program(&prog, Layout::plain());
+        let Ok(lowered) = front(&src, "pay") else {
+            ctx.count("front/rejected");
+            return;
+        };
+        let pp = PP { mainnet: rng.bool(), a: *rng.pick(&COEFFS), b: *rng.pick(&CONSTS), coins_per_utxo_byte: 4310, extra_fees: *rng.pick(&[None, Some(0), Some(77_777)]), cost_models: vec![0, 1, 2], cost_salt: 0 };
+        let n = 2 + rng.usize(11);
+        let unit = *rng.pick(&[50_000i128, 200_000, 1_000_000]);
+        let store: Vec<Utxo> = (0..n)
+            .map(|k| {
+                let mut txid = rng.bytes(32);
+                txid[0] = k as u8;
+                Utxo { r#ref: UtxoRef { txid, index: rng.below(3) as u32 }, address: sender(), assets: CanonicalAssets::from_naked_amount(unit + rng.range(0, unit as i64) as i128), datum: None, script: None }
+            })
+            .collect();
+        let total: i128 = store.iter().map(|u| u.assets.naked_amount().unwrap_or(0)).sum();
+        // fee level from a roomy probe; the quantity is then placed so that q + fee sits near the total of k UTxOs
+        let fee_level: i128 = pp.a as i128 * 300 + pp.b as i128 + pp.extra_fees.unwrap_or(200_000) as i128;
+        let k = 1 + rng.usize(n);
+        let mut amounts: Vec<i128> = store.iter().map(|u| u.assets.naked_amount().unwrap_or(0)).collect();
+        amounts.sort();
+        amounts.reverse();
+        let sum_k: i128 = amounts.iter().take(k).sum();
+        let q = (sum_k - fee_level + rng.range(-30_000, 30_000) as i128).max(1).min(total);
+        let rounds_limit = *rng.pick(&[0usize, 3, 10]);
+        let st = LoggedStore::new(store.clone());
+        let mut mc = MonitoredCompiler::new(env::compiler(&pp));
+        ctx.eval();
+        let r = crate::panics::catch(|| pollster::block_on(resolve_tx(AnyTir::V1Beta0(lowered.clone()), &args(q), &mut mc, &st, rounds_limit)));
+        let rounds = mc.rounds;
+        let detail = |what: serde_json::Value| {
+            json!({"phase": "multi", "source": src, "quantity": q.to_string(), "store": store.iter().map(|u| format!("{}#{}:{}", hex::encode(&u.r#ref.txid[..3]), u.r#ref.index, u.assets.naked_amount().unwrap_or(0))).collect::<Vec<_>>(),
+                "pparams": {"a": pp.a, "b": pp.b, "extra_fees": pp.extra_fees}, "max_optimize_rounds": rounds_limit,
+                "rounds": rounds.iter().map(|r| json!({"fee_applied": r.fee_applied.map(|x| x.to_string()), "payload_len": r.payload_len, "fee_reported": r.fee_reported, "ok": r.ok})).collect::<Vec<_>>(), "observed": what})
+        };
+        ctx.count(&format!("multi/rounds/{}", rounds.len().min(9)));
+        match r {
+            Err(p) => ctx.violation(format!("panic:{}", p.signature()), detail(json!({"panic": p.message}))),
+            Ok(Err(_)) => ctx.count("multi/err"),
+            Ok(Ok(c)) => {
+                ctx.count("multi/ok");
+                let margin = pp.extra_fees.unwrap_or(200_000);
+                let formula = pp.a * c.payload.len() as u64 + pp.b + margin;
+                if c.fee != formula {
+                    ctx.violation("formula", detail(json!({"reported_fee": c.fee, "a*len+b+margin": formula, "len": c.payload.len()})));
+                }
+                let Ok(v) = txview::view(&c.payload) else {
+                    ctx.violation("undecodable-payload", detail(json!({})));
+                    return;
+                };
+                let body_fee = v.tx.fee.clone();
+                if body_fee != BigInt::from(c.fee) {
+                    let at_limit = rounds.len() >= rounds_limit.max(3) + 2;
+                    ctx.violation(format!("nonfixpoint:{}", if at_limit { "oscillation-cut-at-round-limit" } else { "returned-before-convergence" }), detail(json!({"body_fee": body_fee.to_string(), "reported_fee": c.fee})));
+                    return;
+                }
+                // the inputs of the body, looked up in the store
+                let mut selected = BigInt::from(0);
+                for i in &v.tx.inputs {
+                    match store.iter().find(|u| u.r#ref.txid == i.0 && u.r#ref.index as u64 == i.1) {
+                        Some(u) => selected += BigInt::from(u.assets.naked_amount().unwrap_or(0)),
+                        None => ctx.violation("input-not-in-store", detail(json!({"input": format!("{}#{}", hex::encode(&i.0), i.1)}))),
+                    }
+                }
+                if v.tx.inputs.len() >= 2 {
+                    ctx.count("multi/selected>=2");
+                }
+                if rounds.windows(2).any(|w| w[0].payload_len != w[1].payload_len) {
+                    ctx.count("multi/size-changed-between-rounds");
+                }
+                if selected < BigInt::from(q) + &body_fee {
+                    ctx.violation("stale-fee:min-amount", detail(json!({"selected": selected.to_string(), "q + body fee": (BigInt::from(q) + &body_fee).to_string()})));
+                }
+                if with_change {
+                    if let Some(change) = v.tx.outputs.get(1) {
+                        let expect = &selected - BigInt::from(q) - &body_fee;
+                        if change.lovelace != expect {
+                            ctx.violation("stale-fee:change-output", detail(json!({"change": change.lovelace.to_string(), "selected inputs - q - body fee": expect.to_string()})));
+                        }
+                    } else if selected != BigInt::from(q) + &body_fee {
+                        ctx.violation("stale-fee:change-output-missing", detail(json!({"selected": selected.to_string()})));
+                    }
+                }
+                ctx.nontrivial(fnv64(format!("multi{idx}{q}{n}{:?}", (pp.a, pp.b)).as_bytes()));
+                if idx % 499 == 0 {
+                    ctx.sample(|| detail(json!({"fee": c.fee, "inputs": v.tx.inputs.len()})));
+                }
+            }
+        }
+    }
+}
+
 impl Property for C05 {
     fn id(&self) -> &'static str {
         "C05"
     }
     fn rule(&self) -> String {
-        "templates 'pay' (input with min_amount Ada(q) [+ fees], target output, 0..4 extra outputs some sized with min_utxo, optional change output source - q - extras - fees with optional datum, optional metadata, in 2 of 7 cases an optional first output that is emitted or dropped) lowered from source text and resolved with the real resolve_tx against a single-UTxO store; protocol parameters over a in {0,1,43,44,100,255,256,999,1000} x b in {0,155381,10^6} x margin in {None,0,n} x max_optimize_rounds in {0,3,10}; the UTxO amount is placed so that the change (and therefore the fee) sits within +-1200 of a CBOR width boundary (23/24, 255/256, 2^16, 2^32) after a probe resolution. Oracle: decoded body fee = CompiledTx.fee = a*len(payload)+b+margin; decoded change = input - q - extras - body fee; the selected input covers min_amount at that fee. The compiler wrapper's per-round log (fee applied, length, fee reported) classifies failures. Non-trivial: the resolution needed >= 2 rounds; distinct = distinct (shape, pparams, amount).".into()
+        "templates 'pay' (input with min_amount Ada(q) [+ fees], target output, 0..4 extra outputs some sized with min_utxo, optional change output source - q - extras - fees with optional datum, optional metadata, in 2 of 7 cases an optional first output that is emitted or dropped) lowered from source text and resolved with the real resolve_tx against a single-UTxO store; protocol parameters over a in {0,1,43,44,100,255,256,999,1000} x b in {0,155381,10^6} x margin in {None,0,n} x max_optimize_rounds in {0,3,10}; the UTxO amount is placed so that the change (and therefore the fee) sits within +-1200 of a CBOR width boundary (23/24, 255/256, 2^16, 2^32) after a probe resolution. multi: a multi-UTxO input with a fee-dependent threshold against a wallet of 2..12 small UTxOs, the quantity placed so that quantity + fee sits within 30000 of the total of the k largest (the real fee forces one more UTxO, which makes the transaction larger again); the selected inputs are read from the decoded body and looked up in the store. Oracle: decoded body fee = CompiledTx.fee = a*len(payload)+b+margin; decoded change = input - q - extras - body fee; the selected input covers min_amount at that fee. The compiler wrapper's per-round log (fee applied, length, fee reported) classifies failures. Non-trivial: the resolution needed >= 2 rounds; distinct = distinct (shape, pparams, amount).".into()
     }
     fn assumptions(&self) -> Vec<String> {
         vec!["Err results are out of scope (the statement is about returned transactions)".into()]
     }
     fn phases(&self, tier: Tier) -> Vec<Phase> {
         match tier {
-            Tier::Quick => vec![Phase::new("fees", 4_000, Profile::Release)],
-            Tier::Thorough => vec![Phase::new("fees", 250_000, Profile::Release)],
+            Tier::Quick => vec![Phase::new("fees", 4_000, Profile::Release), Phase::new("multi", 3_000, Profile::Release)],
+            Tier::Thorough => vec![Phase::new("fees", 250_000, Profile::Release), Phase::new("multi", 200_000, Profile::Release)],
         }
     }
     fn required_features(&self, _tier: Tier) -> Vec<String> {
-        ["outcome/ok", "rounds/2", "rounds/3", "shape/min_utxo", "shape/change", "shape/fees-in-min", "boundary/crossed-width", "margin/none", "margin/zero", "shape/dropped-optional-output"].iter().map(|s| s.to_string()).collect()
+        ["outcome/ok", "rounds/2", "rounds/3", "shape/min_utxo", "shape/change", "shape/fees-in-min", "boundary/crossed-width", "margin/none", "margin/zero", "shape/dropped-optional-output", "multi/ok", "multi/selected>=2", "multi/size-changed-between-rounds"].iter().map(|s| s.to_string()).collect()
     }
     fn run_case(&self, ctx: &mut Ctx, phase: &str, idx: u64, rng: &mut Rng) {
+        if phase == "multi" {
+            return self.multi(ctx, idx, rng);
+        }
         let extra = rng.usize(5);
         let shape = Shape {
             fees_in_min: rng.chance(2, 3),
